@@ -283,7 +283,8 @@ def parse_rvalue(s):
             return ('cast', parse_operand(c[0]), c[1], c[2])
         return ('use', parse_operand(s))
     c = _split_cast(s)
-    if c and not s.startswith(('&', '(', '[')) and re.match(r'^[A-Za-z_<]', c[0]) and ' ' not in c[0].split('::<')[0]:
+    if c and not s.startswith(('&', '(', '[')) and re.match(r'^[A-Za-z_<]', c[0]) \
+            and (' ' not in c[0].split('::<')[0] or re.match(r'^<.*>::\w+(::<.*>)?$', c[0])):
         # cast of a bare path (fn item / constructor) e.g. `mod::Enum::Variant as fn(T) -> Enum (PointerCoercion(..))`
         return ('cast', ('const', ('path', c[0])), c[1], c[2])
     if s.startswith('&raw const (fake) '):
